@@ -1578,5 +1578,8 @@ class StarterModel(Starter):
                                  for command in job_list]
         super().next()
 
+    def after(self, application_job: ApplicationStartJobs) -> None:
+        """ Do NOT apply any pending application stop when modelling (it would stop the real application). """
+
     def publish_state_modes(self):
         """ Empty method to cancel states & mode publication. """
